@@ -583,7 +583,13 @@ pub fn mutants_of(c: &Corpus, seed: usize, thorough: bool) -> Vec<Mutant> {
         out.push(Mutant::Prefix(n));
     }
     let all = thorough && s.bytes.len() <= 2048;
+    // reduced run on the second configuration in the quick tier: one bit per byte
+    let reduced = !thorough && crate::common::is_sub();
     for pos in 0..s.bytes.len() {
+        if reduced {
+            out.push(Mutant::Byte { pos, val: s.bytes[pos] ^ (1 << (pos % 8)) });
+            continue;
+        }
         for val in byte_values(s.bytes[pos], all) {
             out.push(Mutant::Byte { pos, val });
         }
